@@ -35,7 +35,14 @@ func c04Scopes() ([]v1.AuthScope, bool, bool) {
 func VerifC04Token() {
 	token := zzverif.StringUpTo("token", zzverif.Param("maxToken", 2), "")
 	scopes, hb, wc := c04Scopes()
-	a := NewTokenAuth(scopes, token)
+	// the verifier and the setter as the server and the client build them from their configuration
+	ver := NewAuthVerifier(v1.AuthServerConfig{Method: v1.AuthMethodToken, Token: token, AdditionalScopes: scopes})
+	set := NewAuthSetter(v1.AuthClientConfig{Method: v1.AuthMethodToken, Token: token, AdditionalScopes: scopes})
+	zzverif.Assert(ver != nil && set != nil, "C04.token.token-method-has-a-verifier-and-a-setter")
+	a := struct {
+		Verifier
+		Setter
+	}{ver, set}
 	ts := zzverif.Int64("ts")
 	klen := []int{0, 1, 31, 32, 33}[zzverif.Choice("keyLen", 5)]
 	key := zzverif.ASCII("key", klen)
